@@ -13,6 +13,7 @@ inductive Op
   | report (h : Nat)
   | execute
   | restart
+  | install (idx height : Nat)     -- raft hands over a snapshot; catch-up through the syncer
 deriving Repr
 
 structure Sys where
@@ -30,6 +31,7 @@ def step (s : Sys) : Op → Sys
     | (n', some h) => { n := n', ledger := h, delivered := s.delivered ++ [h] }
     | (n', none) => { s with n := n' }
   | .restart => { s with n := (restart s.n s.ledger).1 }
+  | .install idx height => { s with n := installSnap s.n idx height s.ledger }
 
 def run (s : Sys) (ops : List Op) : Sys := ops.foldl step s
 
@@ -78,6 +80,29 @@ theorem restart_good (n : Node) (L : Nat) : Good (restart n L).1 L := by
   unfold restart
   exact publish_good _ _ L ⟨rfl, rfl⟩
 
+theorem installSnap_good (n : Node) (idx height ledger L : Nat) (h : Good n L) : Good (installSnap n idx height ledger) L := by
+  unfold installSnap
+  have key : ∀ (hs : List Nat) (m : Node), Good m L →
+      Good (hs.foldl (fun (m : Node) h => if h = m.lastExec + 1 then { m with queue := m.queue ++ [h], lastExec := h } else m) m) L := by
+    intro hs
+    induction hs with
+    | nil => intro m hm; exact hm
+    | cons x rest ih =>
+      intro m hm
+      simp only [List.foldl_cons]
+      apply ih
+      split
+      · rename_i hx
+        obtain ⟨hq, hl⟩ := hm
+        refine ⟨?_, ?_⟩
+        · show m.queue ++ [x] = List.range' (L + 1) (m.queue ++ [x]).length
+          rw [List.length_append, List.length_singleton, List.range'_concat, ← hq, hx, hl]
+          simp; omega
+        · show x = L + (m.queue ++ [x]).length
+          rw [List.length_append, List.length_singleton, hx, hl]; omega
+      · exact hm
+  exact key _ n h
+
 /-- the executor only ever takes the height right after the one it has -/
 theorem execute_next (n n' : Node) (L x : Nat) (h : Good n L) (he : execute n = (n', some x)) :
     x = L + 1 ∧ Good n' (L + 1) := by
@@ -107,6 +132,7 @@ theorem step_inv (l0 : Nat) (s : Sys) (op : Op) (h : Inv l0 s) : Inv l0 (step s 
   | snapshot => exact ⟨snapshot_good _ _ hg, hle, hd⟩
   | report x => exact ⟨report_good _ _ _ hg, hle, hd⟩
   | restart => exact ⟨restart_good _ _, hle, hd⟩
+  | install idx height => exact ⟨installSnap_good _ _ _ _ _ hg, hle, hd⟩
   | execute =>
     simp only [step]
     generalize he : execute s.n = r
